@@ -15,6 +15,15 @@ type mutOp struct {
 	apply func(g G, req M, v *ReqView) bool // false = not applicable
 }
 
+func hasBias(v *ReqView, name string) bool {
+	for _, b := range v.Biases {
+		if str(b["name"]) == name {
+			return true
+		}
+	}
+	return false
+}
+
 func firstBias(req M, b M) {
 	bs := asL(req["biases"])
 	req["biases"] = append([]interface{}{b}, bs...)
@@ -155,7 +164,9 @@ var mutOps = []mutOp{
 		case "electreIII":
 			delete(asM(mp["electreCriteria"]), cid)
 		case "satisfactionHeuristic":
-			if str(mp["function"]) != "thresholds" {
+			// explicit thresholds are validated when the method evaluates: claimed only if no
+			// omission can drop the criterion first (a missing threshold is not in the documented list)
+			if str(mp["function"]) != "thresholds" || hasBias(v, "criteriaOmission") {
 				return false
 			}
 			ths := asL(asM(mp["params"])["thresholds"])
@@ -163,8 +174,26 @@ var mutOps = []mutOp{
 		}
 		return true
 	}},
+	{"missingWeightBeforeRandomOmission", func(g G, req M, v *ReqView) bool {
+		// the weight of a criterion is missing and a random-order omission may drop that very criterion
+		// before the method looks at its weights: still a request with a missing weight
+		if len(v.Criteria) < 2 {
+			return false
+		}
+		cid := v.Criteria[g.Int(0, len(v.Criteria)-1)].Id
+		switch v.Method {
+		case "weightedSum", "owa", "majorityHeuristic", "aspectEliminationHeuristic":
+			delete(asM(v.MP["weights"]), cid)
+		case "electreIII":
+			delete(asM(v.MP["electreCriteria"]), cid)
+		default:
+			return false
+		}
+		firstBias(req, M{"name": "criteriaOmission", "props": M{"ratio": 0.0, "min": 1, "max": 1, "ordering": "random", "randomSeed": g.Seed()}})
+		return true
+	}},
 	{"missingThresholdValue", func(g G, req M, v *ReqView) bool {
-		if str(v.MP["function"]) != "thresholds" {
+		if str(v.MP["function"]) != "thresholds" || hasBias(v, "criteriaOmission") {
 			return false
 		}
 		ths := asL(asM(v.MP["params"])["thresholds"])
